@@ -91,14 +91,19 @@ def compare_summaries(a, b, perm=None, exact=False, rtol=1e-9, atol=1e-9):
         elif exact:
             if not np.array_equal(want, mb, equal_nan=True):
                 diffs.append((key, "values differ (exact comparison)"))
-        elif not np.allclose(want, mb, rtol=rtol, atol=atol, equal_nan=True):
-            diffs.append((key, "values differ"))
+        else:
+            # floating-point noise (a permuted sum differs in the last bits, and centring data with a large offset
+            # amplifies that in products): tolerance relative to the magnitude of the column, not of the entry
+            scale = np.maximum(1.0, np.nanmax(np.abs(np.where(np.isfinite(want), want, 0.0)), axis=0)) if want.size else 1.0
+            ok = np.isclose(want, mb, rtol=0, atol=0, equal_nan=True) | (np.abs(want - mb) <= rtol * scale)
+            if not ok.all():
+                diffs.append((key, "values differ"))
     pa, pb = a["params"], b["params"]
     if [p[0] for p in pa] != [p[0] for p in pb] or [len(p[1]) for p in pa] != [len(p[1]) for p in pb]:
         diffs.append(("params", "different transform objects"))
     else:
         for (n1, v1), (_, v2) in zip(pa, pb):
-            ok = np.array_equal(v1, v2) if exact else np.allclose(v1, v2, rtol=1e-9, atol=1e-9)
+            ok = np.array_equal(v1, v2, equal_nan=True) if exact else np.allclose(v1, v2, rtol=1e-9, atol=1e-9, equal_nan=True)
             if not ok:
                 diffs.append(("params", f"{n1}: {v1[:4]} vs {v2[:4]}"))
     return diffs
